@@ -51,6 +51,19 @@ Section C10.
     s_end (step1 s (SRecv (ILoginDisconnect msg))) =
       Some (match outdated_ver msg with Some v => EVersionMismatch v | None => ELoginDisconnect msg end).
   Proof. exact (login_disconnect_step rsa secret vhash has_token f107). Qed.
+
+  (* a login on an object that has already been through a session - whatever state s that left behind (compression on, a
+     cipher installed, packets still queued, the play state, a recorded error) - is, after connect(), the login of a fresh
+     object under every schedule: the same frames with the same compression and cipher state (after the earlier history),
+     the same joins, the same final state.  (connect() = Reactors.reconnect: new socket, new queue, compression reset,
+     new login reactor.) *)
+  Theorem C10_relogin_is_fresh : forall s sched,
+    let a := fold_left step1 sched (reconnect s) in
+    let b := run_session rsa secret vhash has_token f107 sched in
+    s_wire a = s_wire s ++ s_wire b /\ s_joins a = s_joins s ++ shift_joins (length (s_wire s)) (s_joins b) /\
+    s_play a = s_play b /\ s_comp a = s_comp b /\ s_enc a = s_enc b /\ s_queue a = s_queue b /\
+    s_spawned a = s_spawned b /\ s_end a = s_end b /\ s_exits a = (s_exits s + s_exits b)%nat.
+  Proof. exact (relogin_is_fresh rsa secret vhash has_token f107). Qed.
 End C10.
 Print Assumptions C10_encryption_request.
 Print Assumptions C10_flags_apply_to_everything_after.
@@ -58,6 +71,7 @@ Print Assumptions C10_set_compression.
 Print Assumptions C10_plugin_answers.
 Print Assumptions C10_success_enters_play.
 Print Assumptions C10_disconnect_is_an_error.
+Print Assumptions C10_relogin_is_fresh.
 
 Definition str (l : list Z) := l.
 Example C10_ex :
@@ -70,4 +84,14 @@ Example C10_ex :
   s_joins s = [([115], 0%nat)] /\ s_play s = true /\
   outdated_ver (pre_client ++ [49; 46; 56]) = Some [49; 46; 56] /\ outdated_ver (pre_server ++ [49; 46; 56; 10]) = Some [49; 46; 56] /\
   outdated_ver (pre_client ++ [49; 32; 56]) = None /\ outdated_ver (pre_client) = None.
+Proof. vm_compute. repeat split; reflexivity. Qed.
+
+(* the used object of the relogin theorem, concretely: compression was announced, a plugin answer is still queued, then the
+   login was refused; the next login (plugin request, success) is written without compression and enters play *)
+Example C10_relogin_ex :
+  let run := fold_left (do_step (fun _ m => m) [7; 7] (fun a _ _ => a) true true) in
+  let used := run [SRecv (ISetComp 64); SRecv (IPlugin 1); SRecv (ILoginDisconnect [120])] (init) in
+  s_comp used = Some 64 /\ s_queue used = [OPluginResp 1] /\ s_end used = Some (ELoginDisconnect [120]) /\
+  let again := run [SRecv (IPlugin 2); SFlush 3; SRecv ISuccess] (reconnect used) in
+  s_wire again = [ {| w_pkt := OPluginResp 2; w_comp := None; w_enc := None |} ] /\ s_play again = true /\ s_end again = None.
 Proof. vm_compute. repeat split; reflexivity. Qed.
